@@ -482,7 +482,7 @@ def run(ctx):
     parts = {}
     accs = []
     best = {}
-    for name, fn, items in (("rev", _work_rev, idx), ("wt", _work_wt, idx), ("git", _work_git, idx[:ctx.q(12, 40)])):
+    for name, fn, items in (("rev", _work_rev, idx), ("wt", _work_wt, idx), ("git", _work_git, idx[:ctx.q(8, 40)])):
         raw = par.pmap(fn, items, seed=ctx.seed)
         tp.gather(raw, best)
         a = par.merge(raw)
